@@ -17,7 +17,8 @@ pub const NAME_GROUPS: [&[&str]; 6] = [
     // plain
     &["a", "b", "c", "d", "k", "x1"],
     // prefix siblings
-    &["ab", "a.b", "a b", "abc", "a-", "a_"],
+    // (the last two CONTAIN the overlay's marker suffix without ending in it: ordinary names)
+    &["ab", "a.b", "a b", "abc", "a-", "a_", "a_world", "a_wo.txt"],
     // dotted
     &[".h", "c..d", "e.", "x.tar.gz", "...", ".a.b"],
     // multi-byte
